@@ -149,7 +149,9 @@ class PropertyCheck:
         if live["meta"]["import_errors"]:
             self.say(f"NOTE import errors in live dump: {live['meta']['import_errors']}")
         baseline = self.load_baseline()
-        keys = self.spec.get("contracts", [])
+        keys = list(self.spec.get("contracts", []))
+        if self.tier != "quick":
+            keys += self.spec.get("contracts_thorough", [])      # same obligations at larger sizes: slow to generate
         total_obl = 0
         for key in keys:
             con = REGISTRY.get(key)
@@ -480,6 +482,8 @@ class PropertyCheck:
                "budget_s": budget or (hooks.get("budget_quick", 40) if self.tier == "quick" else hooks.get("budget_thorough", 300))}
         if shard:
             job["shard"] = list(shard)
+        if self.spec.get("clause_prefixes") and key.startswith("e2e:"):
+            job["clause_prefixes"] = self.spec["clause_prefixes"]
         out = run_driver(job, timeout=job["budget_s"] + 120)
         if record:
             self.bounded.append({"kind": "runtime contract check on the real function (bounded, never counted as proved)",
